@@ -171,7 +171,7 @@ DEFAULT_FEATURES = dict(
     derived=True, cte=True, order=True, limit=True, offset_no_limit=False, order_expr=True,
     cast=True, concat=True, group_expr=True, where_false=True, case_no_else=False,
     corr_in_sub=False, neg=True, null_lit=True, sum_=True, derived_limit=False, agg_in_list=True, in_sub_expr=True,
-    sorted_join=True, join_mixed_key=True, order_hidden_pk=True,
+    sorted_join=True, join_mixed_key=True, order_hidden_pk=True, join_false_conjunct=True,
 )
 
 
@@ -185,6 +185,7 @@ class Q:
         self.sql, self.tags, self.ncols = sql, set(tags), ncols
         self.order = order or []    # [(col_index, desc)]
         self.limited = limited
+        self.count_only = False     # LIMIT without ORDER BY: only the number of rows is determined
 
 
 class QueryGen:
@@ -478,6 +479,11 @@ class QueryGen:
                 if not conds or (r.random() < 0.3 and "join_mixed_key" not in self.tags):
                     conds.append(self.bool_expr(scope + s1, 1))
                     self.tag("join_residual")
+                if self.f.get("const_pred", True) and self.on("join_false_conjunct", 0.05):
+                    # a conjunct that folds to FALSE next to conjuncts over both inputs: the condition's class
+                    # then "uses no columns" while still holding the other conjuncts (pruning + condition push-down)
+                    self.tag("join_false_conjunct")
+                    conds.insert(r.randint(0, len(conds)), r.choice(["(2 BETWEEN 1 AND 1)", "(1 = 0)", "(3 < 3)", "(NOT (2 = 2))"]))
                 sql += f" {k} {t1.name} AS {a1} ON " + " AND ".join(conds)
             scope = scope + s1
         return sql, scope
@@ -744,4 +750,13 @@ class QueryGen:
                 self.tag("offset_no_limit")
                 limited = True
                 sql += f" OFFSET {r.choice([0, 1, 2])}"
+        simple = not any(t.startswith(("join:", "agg", "distinct", "derived", "cte", "sub:", "sorted_join")) for t in self.tags)
+        if not order and not limited and self.on("unordered_limit", 0.45 if simple else 0.12):
+            # LIMIT without ORDER BY: which rows come back is not determined, how many is (min(n, N)); a consumer
+            # sets Q.count_only and compares the number of rows
+            self.tag("unordered_limit")
+            sql += f" LIMIT {r.choice([1, 2, 3, 5, 8, 13, 100])}"
+            q = Q(sql, self.tags, n, [], True)
+            q.count_only = True
+            return q
         return Q(sql, self.tags, n, order, limited)
